@@ -8,25 +8,91 @@ from harness import batt
 from harness.core import q, coq_list
 
 HEADER = ("From Coq Require Import ZArith QArith List String.\n"
-          "From ACN Require Import Base.Num Model.Battery Model.BatteryStation.\nImport ListNotations.\n"
+          "From ACN Require Import Base.Num Model.EVSE Model.Battery Model.BatteryStation.\nImport ListNotations.\n"
           "Open Scope string_scope.\nOpen Scope Q_scope.\n")
 CHECK_FN = "check_station"
 
 
+AV_RATES = [0] + list(range(6, 33))          # get_evse_by_type(.., "AeroVironment")
+CC_RATES = [0, 8, 16, 24, 32]                # get_evse_by_type(.., "ClipperCreek")
+
+
+def make_evse(sid, kind):
+    """kind: ["C", min, max] | ["D", deadband_end, max] | ["F", [rates]] | ["T", "BASIC"|"AeroVironment"|"ClipperCreek"]"""
+    from acnportal.acnsim.models import EVSE, DeadbandEVSE, FiniteRatesEVSE
+    from acnportal.acnsim.models.evse import get_evse_by_type
+    if kind[0] == "T":
+        return get_evse_by_type(sid, kind[1])
+    if kind[0] == "C":
+        return EVSE(sid, max_rate=kind[2], min_rate=kind[1])
+    if kind[0] == "D":
+        return DeadbandEVSE(sid, deadband_end=kind[1], max_rate=kind[2])
+    return FiniteRatesEVSE(sid, list(kind[1]))
+
+
+def evse_params(kind):
+    """normalised (class letter, parameters) of a station's EVSE, for the model and the pilot generator"""
+    if kind[0] == "T":
+        return {"BASIC": ("C", 0, 32), "AeroVironment": ("F", AV_RATES), "ClipperCreek": ("F", CC_RATES)}[kind[1]]
+    return tuple(kind)
+
+
+def evse_coq(kind):
+    k = evse_params(kind)
+    if k[0] == "C":
+        return "(Continuous %s %s)" % (q(k[1]), q(k[2]))
+    if k[0] == "D":
+        return "(Deadband %s %s)" % (q(k[1]), q(k[2]))
+    return "(Finite %s)" % coq_list([q(r) for r in k[1]])
+
+
+def allowed_pilot(rng, kind, want_zero=False):
+    """a pilot the station's EVSE accepts (0 is always among them)"""
+    k = evse_params(kind)
+    if want_zero:
+        return 0
+    u = rng.random()
+    if k[0] == "C":
+        lo, hi = k[1], k[2]
+        return hi if u < 0.3 else rng.choice([x for x in (6, 8, 13.5, 16) if lo <= x <= hi] or [hi]) if u < 0.55 else round(rng.uniform(lo, hi), 3)
+    if k[0] == "D":
+        lo, hi = k[1], k[2]
+        return hi if u < 0.3 else lo if u < 0.45 else round(rng.uniform(lo, hi), 3)
+    rates = [r for r in k[1] if r > 0]
+    if not rates:
+        return 0
+    return max(rates) if u < 0.3 else min(rates) if u < 0.45 else rng.choice(rates)
+
+
+def rand_evse(rng):
+    u = rng.random()
+    if u < 0.12:
+        return ["T", rng.choice(["BASIC", "AeroVironment", "ClipperCreek"])]
+    if u < 0.30:
+        return ["C", 0, rng.choice([16, 32, 32, 80])]
+    if u < 0.45:
+        return ["D", rng.choice([6, 6, 8]), rng.choice([16, 32, 32])]
+    if u < 0.62:
+        return ["F", AV_RATES]
+    if u < 0.79:
+        return ["F", CC_RATES]
+    return ["F", sorted(set(rng.choice([6, 8, 10, 12.5, 16, 24, 30, 32, 40]) for _ in range(rng.randint(1, 5))))]
+
+
 def run_sim(inp):
-    """inp: dict(period, stations=[dict(voltage, max_rate)], sessions=[dict(station, arrival, departure, requested,
+    """inp: dict(period, stations=[dict(voltage, evse=kind)], sessions=[dict(station, arrival, departure, requested,
     battery=spec)], script=[[pilot per station] per period], noise=[floats])"""
     import numpy as np
     from acnportal.acnsim import Simulator
     from acnportal.acnsim.network import ChargingNetwork
     from acnportal.acnsim.events import EventQueue, PluginEvent
-    from acnportal.acnsim.models import EV, EVSE
+    from acnportal.acnsim.models import EV
     from acnportal.algorithms import BaseAlgorithm
 
     sids = ["S%d" % k for k in range(len(inp["stations"]))]
     net = ChargingNetwork()
     for sid, st in zip(sids, inp["stations"]):
-        net.register_evse(EVSE(sid, max_rate=st["max_rate"]), st["voltage"], 0)
+        net.register_evse(make_evse(sid, st["evse"]), st["voltage"], 0)
 
     noise_vals = list(inp["noise"])
     drawn = []
@@ -115,8 +181,8 @@ def station_cases(inp, impl):
             else:
                 n = impl["draws"].get("%d,%d" % (k, t), 0.0)
                 slots.append("(Occupied %d%%nat %s %s %s %s %s)" % (local[k], q(p), q(st["voltage"]), q(inp["period"]), q(n), q(n)))
-        coq = ("{| st_batts := %s;\n   st_slots := %s;\n   st_pilots := %s; st_rates := %s;\n   st_final := %s |}" % (
-            coq_list([batt.batt_coq(inp["sessions"][k]["battery"]) for k in sess]), coq_list(slots),
+        coq = ("{| st_evse := %s;\n   st_batts := %s;\n   st_slots := %s;\n   st_pilots := %s; st_rates := %s;\n   st_final := %s |}" % (
+            evse_coq(st["evse"]), coq_list([batt.batt_coq(inp["sessions"][k]["battery"]) for k in sess]), coq_list(slots),
             coq_list([q(x) for x in impl["pilots"][s]]), coq_list([q(x) for x in impl["rates"][s]]),
             coq_list(["(%s, %s)" % (q(impl["final"][k][0]), q(impl["final"][k][1])) for k in sess])))
         out.append(coq)
@@ -126,7 +192,7 @@ def station_cases(inp, impl):
 def rand_sim(rng, c03):
     period = rng.choice([1, 5, 5, 15])
     nst = rng.choice([1, 1, 2, 3])
-    stations = [dict(voltage=rng.choice([120, 208, 208, 240, 277]), max_rate=rng.choice([16, 32, 32, 80])) for _ in range(nst)]
+    stations = [dict(voltage=rng.choice([120, 208, 208, 240, 277]), evse=rand_evse(rng)) for _ in range(nst)]
     sessions = []
     horizon = 0
     for s in range(nst):
@@ -140,12 +206,23 @@ def rand_sim(rng, c03):
             sessions.append(dict(station=s, arrival=t, departure=t + dur, requested=round(rng.uniform(1, 30), 2), battery=spec))
             t += dur + rng.randint(1, 3)
         horizon = max(horizon, t)
+    # schedules: per station a pattern with 0 A pilots WHILE an EV is connected (pauses, time-sharing between the
+    # stations, on/off), every pilot being one the station's EVSE class accepts
+    patterns = [rng.choice(["mixed", "pause", "share", "onoff", "mixed"]) for _ in stations]
     script = []
     for t in range(horizon + 1):
         row = []
-        for st in stations:
-            u = rng.random()
-            row.append(0 if u < 0.15 else st["max_rate"] if u < 0.4 else rng.choice([6, 8, 13.5, 16]) if u < 0.6 else round(rng.uniform(0, st["max_rate"]), 3))
+        for k, st in enumerate(stations):
+            pat = patterns[k]
+            if pat == "pause":
+                zero = (t % 4) in (1, 2)
+            elif pat == "share":
+                zero = (t % max(nst, 2)) != (k % max(nst, 2))          # round-robin: one station at a time
+            elif pat == "onoff":
+                zero = (t % 2) == 1
+            else:
+                zero = rng.random() < 0.2
+            row.append(allowed_pilot(rng, st["evse"], want_zero=zero))
         script.append(row)
     noise = [rng.gauss(0, 1) * rng.choice([0.1, 1, 5]) for _ in range(7)] + [0.0, 100.0, -100.0]
     rng.shuffle(noise)
